@@ -133,6 +133,37 @@ def dupreg(kwmode: bool, oc: bool, qd: bool, v1: int, v2: int, v3: int, un: int,
 dupreg.ranges = lambda consts: dict(v1=(-1, 1), v2=(-1, 1), v3=(-1, 1), un=(0, 1), cp=(0, 2), route=(0, 2))
 
 
+def repname(oc: bool, qd: bool, v1: int, route: int) -> None:
+    """One watcher registered with a repeated parameter name (['a', 'a']) is one watcher: one call per qualifying
+    assignment, carrying one event for a."""
+    import param
+    from sx.api import check, untraced, pickbool, pick, assume
+    oc, qd = pickbool(oc), pickbool(qd)
+    route = pick(route, 0, 2)
+    with untraced():
+        class P(param.Parameterized):
+            a = param.Integer(default=0)
+        p = P()
+    calls = []
+    w = p.param.watch(lambda *events: calls.append([e.name for e in events]), ['a', 'a'], onlychanged=oc, queued=qd)
+    assume(v1 != 0)
+    if route == 0:
+        p.a = v1
+    elif route == 1:
+        p.param.update(a=v1)
+    else:
+        with param.parameterized.batch_call_watchers(p):
+            p.a = v1
+    info = {'repeated_name': True, 'onlychanged': oc, 'queued': qd, 'route': route}
+    check('C03.once', calls == [['a']], dict(info, calls=repr(calls)))
+    p.param.unwatch(w)
+    p.a = v1 + 1
+    check('C03.once', calls == [['a']], dict(info, after_unwatch=True, calls=repr(calls)))
+
+
+repname.ranges = lambda consts: dict(v1=(-1, 1), route=(0, 2))
+
+
 def _ranges(consts):
     r = {}
     q = consts['nw'] == 2
@@ -153,6 +184,7 @@ def shards(tier):
     k, nw = (2, 2) if q else (3, 3)
     for i in range(len(D.EQPOOL)):
         out.append(dict(name='eq_%d' % i, module='harness.c03', fn='eq', consts=dict(i=i), budget_s=60 if q else 300))
+    out.append(dict(name='repname', module='harness.c03', fn='repname', consts={}, budget_s=30 if q else 60))
     out.append(dict(name='dupreg', module='harness.c03', fn='dupreg', consts={}, budget_s=40 if q else 120))
     for touch in (False, True):
         out.append(dict(name='clsdef_%d' % touch, module='harness.c03', fn='clsdef', consts=dict(touch=touch), budget_s=40 if q else 120))
